@@ -68,7 +68,8 @@ class _EpydocLinker(DocstringLinker):
         """
         
         self._init_obj = obj
-        self._page_object: Optional['model.Documentable'] = obj.page_object
+        self._page_object: Optional['model.Documentable'] = None
+        self._context_switched = False
     
     @property
     def obj(self) -> 'model.Documentable':
@@ -83,7 +84,9 @@ class _EpydocLinker(DocstringLinker):
         URL of the page used to compute the relative links from. 
         Can be an empty string to always generate full urls. 
         """
-        pageob = self._page_object
+        # Unless the context has been switched, links are relative to the page the object is on *now*:
+        # the object might have been moved (re-exported) since the linker was created.
+        pageob = self._page_object if self._context_switched else self._init_obj.page_object
         if pageob is not None:
             return pageob.url
         return ''
@@ -92,14 +95,17 @@ class _EpydocLinker(DocstringLinker):
     def switch_context(self, ob:Optional['model.Documentable']) -> Iterator[None]:
         
         old_page_object = self._page_object
+        old_switched = self._context_switched
         old_reporting_object = self.reporting_obj
 
         self._page_object = None if ob is None else ob.page_object
+        self._context_switched = True
         self.reporting_obj = ob
         
         yield
         
         self._page_object = old_page_object
+        self._context_switched = old_switched
         self.reporting_obj = old_reporting_object
 
     def look_for_name(self,
